@@ -72,7 +72,7 @@ func init() {
 		Shards: func(tier string) int { return map[string]int{"quick": 8, "thorough": 16}[tier] },
 		Run: func(c *Ctx) {
 			c.P.Rule = "random families, every cell"
-			c.Rapid("cells", c.Pick(4000, 80000), func(t *rapid.T) {
+			c.Rapid("cells", c.Pick(8000, 100000), func(t *rapid.T) {
 				gc := DrawGrammar(t, fams)
 				if msg := evalC05Cells(c, gc); msg != "" {
 					c.Fail(gc, msg)
